@@ -24,6 +24,8 @@ pub enum Cmd {
 	Send(u64),
 	IsClosed,
 	Return(bool),
+	/// the task holding the sinks panics
+	Panic,
 }
 #[derive(Debug, Clone, PartialEq)]
 pub enum Ack {
@@ -86,6 +88,9 @@ pub fn scripted_module(script: Arc<Script>) -> RpcModule<Arc<Script>> {
 		let (ret_tx, ret_rx) = tokio::sync::oneshot::channel::<bool>();
 		let variant = ctx.variant.load(std::sync::atomic::Ordering::Relaxed);
 		tokio::spawn(async move {
+			// declared before `sinks`, so dropped after them - also while unwinding: when the driver sees this channel close,
+			// the sinks are gone
+			let ack = ack;
 			let mut sinks: Vec<SubscriptionSink> = vec![first_sink];
 			let mut ret_tx = Some(ret_tx);
 			while let Some(cmd) = rx.recv().await {
@@ -137,6 +142,10 @@ pub fn scripted_module(script: Arc<Script>) -> RpcModule<Arc<Script>> {
 						}
 						tokio::task::yield_now().await;
 						let _ = ack.send(Ack::Ok);
+					}
+					Cmd::Panic => {
+						// the sinks go while this task unwinds; the acknowledgement channel closing (after them) tells the driver
+						panic!("scripted handler panic (C06)");
 					}
 					other => panic!("HARNESS: {other:?} after accept"),
 				}
@@ -317,6 +326,22 @@ impl World {
 					Some(Ack::Err) => "err".into(),
 					o => format!("odd-ack:{o:?}"),
 				}
+			}
+			"panic" => {
+				// no acknowledgement can follow a panic: the command channel closing is the signal
+				let _ = self.cmds.get(&k).map(|c| c.send(Cmd::Panic));
+				let gone = tokio::time::timeout(WAIT, async {
+					while let Some(rx) = self.acks.get_mut(&k) {
+						if rx.recv().await.is_none() {
+							break;
+						}
+					}
+				})
+				.await
+				.is_ok();
+				self.cmds.remove(&k);
+				self.acks.remove(&k);
+				if gone { "ok".into() } else { "keeper-did-not-end".into() }
 			}
 			"return" => match self.cmd(k, Cmd::Return(op["closing"] == json!(true))).await { Some(Ack::Ok) => "ok".to_string(), o => format!("odd-ack:{o:?}") },
 			"unsub" => {
@@ -529,6 +554,22 @@ async fn one_case(c: &Value, idx: usize) -> (Vec<(String, Value)>, Value) {
 			if admitted != want {
 				probs.push((format!("final:free-slot-exp-{want}-got-{admitted}"), json!({"case": c, "conn": cn, "log": log})));
 			}
+		}
+	}
+	// (c) the subscriber table itself, last because asking changes it: an unsubscribe from the subscription's own connection
+	// answers true exactly for the entries the spec still has
+	let table: Vec<u64> = fin["table"].as_array().map(|a| a.iter().filter_map(|k| k.as_u64()).collect()).unwrap_or_default();
+	let mut ks: Vec<u64> = w.sub_ids.keys().cloned().collect();
+	ks.sort();
+	for k in ks {
+		let cn = conn_of(k);
+		if !w.conns.get(&cn).map(|c| c.open).unwrap_or(false) {
+			continue;
+		}
+		let got = w.step(&json!({"o": "unsub", "c": cn, "k": k}), &conn_of).await;
+		let want = if table.contains(&k) { "true" } else { "false" };
+		if got != want {
+			probs.push((format!("final:table-entry-exp-{want}-got-{got}"), json!({"case": c, "k": k, "log": log})));
 		}
 	}
 	(probs, Value::Null)
